@@ -131,12 +131,10 @@ theorem roll_prefix (sides mode : Int) (ws : List Nat) (r : Int) (rest : List Na
     · split at h
       · simp at h; exact ⟨[], by simp [h.2]⟩
       · split at h
-        · simp at h; exact ⟨[], by simp [h.2]⟩
-        · split at h
-          · simp at h
-          · rename_i r0 w0 h64
-            simp at h; obtain ⟨_, rfl⟩ := h
-            exact roll64_prefix _ _ _ _ h64
+        · simp at h
+        · rename_i r0 w0 h64
+          simp at h; obtain ⟨_, rfl⟩ := h
+          exact roll64_prefix _ _ _ _ h64
 
 /-- in min / max mode `Roll` never touches the stream -/
 theorem roll_mode_no_draw (sides mode : Int) (hm : mode = -1 ∨ mode = 1) (ws : List Nat) :
